@@ -107,7 +107,7 @@ fn out_files(dir: &std::path::Path, tag: &str) -> Vec<(String, String)> {
 
 pub fn explore(ctx: &Ctx, shard: usize, n: usize) -> Report {
     let seed = ctx.seed;
-    let rep = drive::cases(ctx, shard, n, RULE, STREAM, 400, 8000, |r, rep, i| one(r, rep, i, shard, seed));
+    let rep = drive::cases(ctx, shard, n, RULE, STREAM, 400, 80000, |r, rep, i| one(r, rep, i, shard, seed));
     cleanup_root("c20", shard);
     rep
 }
